@@ -68,3 +68,11 @@ def cfg_by_name(name):
     if name == 'D':
         return default_cfg()
     return CFG_NAMES[name]
+
+
+def close_figures():
+    global _plt
+    if _plt is None:
+        import matplotlib.pyplot as plt
+        _plt = plt
+    _plt.close('all')
